@@ -596,7 +596,7 @@ func (c16Fataler) Fatal(a ...interface{}) { panic(fmt.Sprint(a...)) }
 
 func c16RaceWorkload() *verifReport {
 	var t c16Fataler
-	rep := newVerifReport("C16", "(3) race detector (go test -race, halt_on_error=0) over a mixed concurrent workload on the real handlers: login, certificate issuance, U2F begin/finish, TOTP, token manage, push start/poll, OAuth2 begin, profile pages and the unseal transition racing readiness/public readers; reports de-duplicated by their innermost keymaster frames; in scope = no dependency frame innermost on either stack, at least one stack's innermost non-library frame lies in the keymaster module (the other too, or that stack is pure standard library) and a request-serving goroutine is involved; class = (workload step kind)")
+	rep := newVerifReport("C16", "(3) race detector (go test -race, halt_on_error=0) over a mixed concurrent workload on the real handlers: login, certificate issuance, U2F begin/finish, TOTP, token manage, push start/poll, OAuth2 begin, profile pages, an Okta deployment (logins racing second-factor requests over expired transactions) and the unseal transition racing readiness/public readers; reports de-duplicated by their innermost keymaster frames; in scope = no dependency frame innermost on either stack, at least one stack's innermost non-library frame lies in the keymaster module (the other too, or that stack is pure standard library) and a request-serving goroutine is involved; class = (workload step kind)")
 	vip := newVerifFakeVIP()
 	defer vip.Server.Close()
 	idp := newVerifFakeIdP()
@@ -671,6 +671,52 @@ func c16RaceWorkload() *verifReport {
 		}(wk)
 	}
 	wg.Wait()
+	// Okta deployment: password logins (which fill the authenticator's per-user transaction cache) racing second-factor
+	// requests of users whose cached transaction has expired (which evict from it)
+	{
+		okta := newVerifFakeOkta()
+		verifNet.Handle("raceco.okta.com", okta)
+		oenv, err := verifNewEnv(verifStateOpts{Name: "c16race-okta", AllowedCerts: []string{"Okta2FA"}, AllowedWebUI: []string{"password"}, OktaDomain: "raceco"})
+		if err != nil {
+			rep.Obs("okta race deployment: %v", err)
+		} else {
+			nU := 12
+			cks := make([]string, nU)
+			for i := 0; i < nU; i++ {
+				u := fmt.Sprintf("ok%d", i)
+				okta.mu.Lock()
+				okta.Password[u], okta.OTP[u], okta.Push[u] = "pw-"+u, "654321", "WAITING"
+				okta.Expired[u] = i%2 == 0
+				okta.mu.Unlock()
+				cks[i], _ = verifLogin(oenv, u, "pw-"+u)
+			}
+			var wg3 sync.WaitGroup
+			for wk := 0; wk < workers; wk++ {
+				wg3.Add(1)
+				go func(wk int) {
+					defer wg3.Done()
+					rng := verifRand(fmt.Sprintf("c16race-okta-%d", wk))
+					for i := 0; i < ops/2; i++ {
+						k := rng.Intn(nU)
+						u := fmt.Sprintf("ok%d", k)
+						switch rng.Intn(4) {
+						case 0:
+							verifLogin(oenv, u, "pw-"+u)
+						case 1:
+							oenv.Do(verifReq{Method: "POST", Path: "/api/v0/okta2FAAuth", Form: url.Values{"OTP": {"654321"}}, Cookies: verifCk(cks[k])}.Build())
+						case 2:
+							oenv.Do(verifReq{Method: "POST", Path: "/api/v0/oktaPushStart", Cookies: verifCk(cks[k])}.Build())
+						default:
+							oenv.Do(verifReq{Method: "GET", Path: "/api/v0/oktaPollCheck", Cookies: verifCk(cks[k])}.Build())
+						}
+						rep.Eval(fmt.Sprintf("race-workload|okta|op=%d", i%4))
+					}
+				}(wk)
+			}
+			wg3.Wait()
+			rep.Count("okta_race_workload_done", 1)
+		}
+	}
 	// unseal transition racing readers (sealed deployment, K concurrent injections)
 	senv, err := verifNewEnv(verifStateOpts{Name: "c16race-sealed", Sealed: true, Passphrase: "open sesame", ClientCA: true, AllowedWebUI: []string{"password"},
 		AllowedCerts: []string{"password"}, Users: map[string]string{"x": "y"}})
